@@ -292,6 +292,22 @@ theorem species_spec (f : Formula) (h : f.WF) (phases : Phases) (dflt : Option I
   · exact List.mem_append.mpr (Or.inl h1)
   · exact List.mem_append.mpr (Or.inr (by rw [suffix_lists_guard.2.2.2, h1]; simp))
 
+/-- **an explicit `phase_idx` keyword wins**: `Species.from_formula(text, phases, default, phase_idx=i)` carries exactly `i` — whatever
+    the suffix would select, whatever the default (also `None`: nothing is refused on account of the phase) — together with the same three
+    names and the same composition as in `species_spec`. -/
+theorem species_explicit_idx_spec (f : Formula) (h : f.WF) (phases : Phases) (i : Int)
+    (hsub : ∀ s ∈ phases.keys, s ∈ suffixesL)
+    (hmem : ∀ s, f.suffix = some s → s ∈ phases.keys ∨ s = ['(', 'a', 'q', ')']) :
+    ∃ c, formulaToCompositionL f.render = .ok c ∧ Agrees f c ∧
+      speciesFromFormulaIdx phases i f.render
+        = .ok ⟨f.render, present latexPres f, present unicodePres f, present htmlPres f, c, some i⟩ := by
+  obtain ⟨c, hc, ha⟩ := parse_render' f h
+  refine ⟨c, hc, ha, speciesFromFormulaIdx_render f h phases i hsub ?_ c hc⟩
+  intro s hs
+  rcases hmem s hs with h1 | h1
+  · exact List.mem_append.mpr (Or.inl h1)
+  · exact List.mem_append.mpr (Or.inr (by rw [suffix_lists_guard.2.2.2, h1]; simp))
+
 /-! ### printed reactions -/
 
 /-- the arrow of each printer (reaction / equilibrium) -/
@@ -364,6 +380,8 @@ example : ∃ S, Listed S f0 := by
   obtain ⟨c, _, _, hs, _⟩ := species_spec f0 (by decide) (.seq (suffixesL.take 3)) (some 0) (by decide) (by decide)
   exact ⟨[(f0.render, ⟨f0.render, present latexPres f0, present unicodePres f0, present htmlPres f0, c, none⟩)],
     by decide, _, by simp [List.lookup], hs⟩
+example : (match speciesFromFormulaIdx (.seq (suffixesL.take 3)) 7 f0.render with | .ok s => s.phaseIdx | .error _ => none) = some 7 := by
+  decide +kernel
 example : coefStr (1 / 2) = "1/2".toList ∧ coefStr 12 = "12".toList ∧ coefStr (-3 / 4) = "-3/4".toList := by decide +kernel
 
 end ChemModel.C13
